@@ -227,3 +227,14 @@ Example address_level_example :
      mkreq (Some (Sub 0 [71;69;84]%N)) (Some (Sub 4 [47;120]%N)) (Some 1%N) [SWritten (Sub 17 [65%N]) (Sub 20 [98%N])],
      [SWritten (Sub 17 [65%N]) (Sub 20 [98%N]); SOld 2]).
 Proof. vm_compute. reflexivity. Qed.
+
+(* the initialised-array entry points (Request::parse / ParserConfig::parse_request go through parse_with_config,
+   which is translated too: take self.headers, cast, call the core, restore unless Complete) *)
+Theorem address_level_request_with_config : forall B W, 0 < W -> forall be cf buf rq, bytes_ok buf ->
+  addr_request_with_config B W be cf buf rq = request_with_config (env_of W be) cf buf rq.
+Proof. exact addr_request_with_config_model. Qed.
+Print Assumptions address_level_request_with_config.
+Theorem address_level_response_with_config : forall B W, 0 < W -> forall be cf buf rp, bytes_ok buf ->
+  addr_response_with_config B W be cf buf rp = response_with_config (env_of W be) cf buf rp.
+Proof. exact addr_response_with_config_model. Qed.
+Print Assumptions address_level_response_with_config.
